@@ -30,8 +30,8 @@ RULE = (
 )
 ASSUMPTIONS = [
     "Generator.uniform(0, b) == b * Generator.random() draw for draw: the draws are reproduced from numpy.random.default_rng(seed) "
-    "and fed to the model (validated here: model noise vs recorded noise within 1e-12*scale on every case, and the state of the "
-    "checker's generator after the run equals the state of the clone after the number of draws the model consumed)",
+    "and fed to the model (validated here: model noise vs recorded noise within 1e-12*scale on every case; evaluate() draws from "
+    "a deep copy of the constructor's generator, so every call starts from the state numpy.random.default_rng(seed) gives)",
     "Series.sort_values() is not stable: the order among alternatives tied in the original ranking is taken from the observed "
     "run (order oracle); for a refused run with ties any admissible order that explains the observation is accepted",
     "decision makers that raise on a mutant (outside their own domain) end the case: skipped and counted",
@@ -137,7 +137,7 @@ def _case(rng, zero=False):
 
 def gen(ctx):
     rng = ctx.rng
-    n_main, n_zero = ctx.n(130, 3000), ctx.n(8, 100)
+    n_main, n_zero = ctx.n(110, 3000), ctx.n(10, 100)
     cases = [_case(rng) for _ in range(n_main)]
     # the refusal stream is spread over the list (each of its cases runs in a child process)
     step = max(1, n_main // n_zero)
@@ -255,7 +255,6 @@ def _one_run(case):
     rec = _Recorder(_build_maker(case["dmaker"]))
     seed = case["seed"] if case["seed_kind"] == "int" else np.random.default_rng(case["seed"])
     out = {}
-    chk = None
     try:
         with _alarm(ALARM_S):
             chk = RankInvariantChecker(rec, repeat=case["repeat"], allow_missing_alternatives=case["allow"],
@@ -286,11 +285,6 @@ def _one_run(case):
         out["ranks"] = ranks
     out["seen"] = rec.seen
     out["answers"] = rec.answers
-    try:  # where the checker's generator stands after the run (how many draws it consumed)
-        st = chk.random_state.bit_generator.state
-        out["rng_state"] = [int(st["state"]["state"]), int(st["state"]["inc"])]
-    except Exception:
-        out["rng_state"] = None
     out["original"] = {k: (np.asarray(v, dtype=float).tolist() if k in ("matrix", "weights") else
                            [int(x) for x in v] if k == "objectives" else [str(x) for x in v])
                        for k, v in dm.to_dict().items()}
@@ -678,13 +672,6 @@ def judge(case, obs, replies):
         if any(abs(x - y) > tol for x, y in zip(mr, ir)):
             corr(f"rrt1: mutated row of experiment {t}", mr, ir)
             break
-    if a.get("rng_state") is not None:
-        g = np.random.default_rng(case["seed"])
-        g.random(int(rep["consumed"]))
-        st = g.bit_generator.state["state"]
-        if [int(st["state"]), int(st["inc"])] != a["rng_state"]:
-            corr("rrt1: the implementation's generator is not where the model's stream position says "
-                 f"({rep['consumed']} draws consumed)", rep["consumed"], "another number of draws")
     if rep.get("names") != [r["name"] for r in ranks]:
         corr("rrt1: names", rep.get("names"), [r["name"] for r in ranks])
     for t, (p, r) in enumerate(zip(rep.get("patched", []), ranks)):
@@ -711,7 +698,9 @@ def tags(case, obs):
          "m=%d" % len(case["dm"]["alternatives"]), "n=%d" % len(case["dm"]["criteria"]), "family:" + case["dm"]["family"],
          "seed:" + case["seed_kind"]]
     if a["outcome"] == "ValueError":
-        t.append("refused:" + ("missing-alternative" if a.get("msg", "").startswith("Missing") else "no-room"))
+        msg = a.get("msg", "")
+        t.append("refused:" + ("missing-alternative" if msg.startswith("Missing") else
+                               "negative-bound(numpy)" if "high - low" in msg else "no-room"))
     objs = case["dm"]["objectives"]
     t.append("objs:" + ("mixed" if len(set(objs)) > 1 else "max" if objs[0] == 1 else "min"))
     if a["answers"]:
